@@ -396,7 +396,7 @@ func (m *Mutex) Unlock() {
 type WaitGroup struct{ n int }
 
 func NewWaitGroup() *WaitGroup { return &WaitGroup{} }
-func (w *WaitGroup) Add(d int)  { w.n += d }
+func (w *WaitGroup) Add(d int) { w.n += d }
 func (w *WaitGroup) Done() {
 	w.n--
 }
